@@ -117,6 +117,29 @@ def adjusted_fields(F, fn, delta_arg=2):
     return out
 
 
+def growth_protocol(ctx, F, g, rule):
+    """a WAL-growth path must, on every Ok path and in this order: shift the data, adjust the TOC offsets, rewrite the
+    TOC + footer, persist the header, sync"""
+    steps = [('shift_data_for_wal_growth', g.calls_to('Memvid::shift_data_for_wal_growth')),
+             ('adjust_offsets_after_wal_growth', g.calls_to('Memvid::adjust_offsets_after_wal_growth')),
+             ('rewrite_toc_footer', g.calls_to('Memvid::rewrite_toc_footer')),
+             ('persist_header', g.calls_to('persist_header')),
+             ('sync_all', g.calls_to('File::sync_all'))]
+    ctx.evaluations += len(steps)
+    missing = [n for n, cs in steps if not cs]
+    if missing:
+        ctx.bad(rule, g, 'the growth path moves the data region but never calls %s: the file keeps a TOC / header whose offsets are %s bytes too low, and an open before the next commit '
+                'reads the wrong bytes' % (', '.join(missing), 'delta'), detail='growth-step-missing:' + ','.join(missing))
+        return
+    exits = [ex for ex in g.ok_exits() if lib.call_success_dominates(g, steps[0][1][0], ex['bb'])]
+    order_ok = all(g.dominates(a[1][0].bb, b[1][0].bb) and a[1][0].bb != b[1][0].bb for a, b in zip(steps, steps[1:]))
+    reach_ok = all(lib.call_success_dominates(g, cs[-1] if n == 'sync_all' else cs[0], ex['bb']) for n, cs in steps[2:] for ex in exits)
+    if order_ok and reach_ok and exits:
+        ctx.ok(rule, g, 'shift -> adjust offsets -> rewrite TOC -> persist header -> sync on every Ok path', line=steps[1][1][0].line)
+    else:
+        ctx.bad(rule, g, 'the growth steps are not ordered shift -> adjust offsets -> rewrite TOC -> persist header -> sync on every Ok path', detail='growth-order')
+
+
 def direct_live_writes(fn):
     out = []
     for c in fn.calls():
@@ -260,14 +283,7 @@ def run(ctx):
                 else:
                     ctx.bad('COVER-C02d', g, 'Memvid.%s is a position in the data region cached on the handle, but this growth path does not move it: the next commit that inserts nothing '
                             'rebuilds the indexes (and places later payloads) at the stale position, inside the enlarged WAL region' % fld, sink='Memvid.' + fld, detail='handle-position-not-shifted:' + fld)
-            sh = g.calls_to('Memvid::shift_data_for_wal_growth')
-            ad = g.calls_to('Memvid::adjust_offsets_after_wal_growth')
-            rw = g.calls_to('Memvid::rewrite_toc_footer')
-            ctx.evaluations += 3
-            if sh and ad and rw and lib.call_success_dominates(g, sh[0], ad[0].bb) and g.dominates(ad[0].bb, rw[0].bb):
-                ctx.ok('COVER-C02d', g, 'shift -> adjust offsets -> rewrite TOC', line=ad[0].line)
-            else:
-                ctx.bad('COVER-C02d', g, 'the TOC is rewritten without the offsets having been adjusted after the data shift', detail='growth-order')
+            growth_protocol(ctx, F, g, 'COVER-C02d')
     # ---- c
     n = 0
     entries = {e.key: e for e in lib.api_roots(F)}
